@@ -71,7 +71,7 @@ def run(check, pool, Task):
             check.record(t.name, r, 'kernel', m)
     derivs = ['identity', 'slice[1:]', 'slice[1:3]', 'take_fill[0,NA,2]', 'concat[2:]+[:2]'] + (['pickle(slice)[1:]', 'reverse[::-1]', 'slice[1:][1:]', 'take[2,0,-1]'] if thorough else [])
     wrappers.run_arrays(check, pool, Task, 'C14', ('length', 'area'), derivs=derivs, dtypes=('float64',))
-    wrappers.run_arrays(check, pool, Task, 'C14', ('length', 'area'), derivs=['slice[1:]'], dtypes=('int32', 'int64') if thorough else ('int32',))
+    wrappers.run_arrays(check, pool, Task, 'C14', ('length', 'area'), derivs=['slice[1:]'], dtypes=('int32', 'int64', 'float32') if thorough else ('int32', 'float32'))
     wrappers.run_boundary(check, pool, Task, 'C14')
 
     from . import glue
